@@ -76,6 +76,7 @@ def run(tier, seed, replay):
         victim = rng.randrange(ncl) if (ncl > 1 and rng.random() < 0.4) else None
         nr = rng.randrange(2, 5)
         victim_round = rng.randrange(nr) if victim is not None else None
+        burst_round = rng.randrange(nr)
         for r in range(nr):
             items = []                 # (text, recipients, kind, size)
             for _ in range(rng.choice([0, 1, 3, 6, 12, 30])):
@@ -91,6 +92,16 @@ def run(tier, seed, replay):
                     c = rng.randrange(ncl)
                     k = rng.randrange(5)          # five client event channels against two server event channels (kinds 0, 2, 4 ordered)
                     items.append(("c%d:%d:%d" % (c, k, size), ["RS:%d" % c], k, size))
+            if ncl > 1 and r == burst_round:
+                # dozens of server -> client messages for SEVERAL clients interleaved in one server frame
+                for _ in range(rng.choice([24, 40, 64])):
+                    size = rng.choice([0, 1, 10, 100])
+                    k = rng.choice([0, 0, 1])
+                    if rng.random() < 0.5:
+                        items.append(("b:%d:%d" % (k, size), ["R%d" % c for c in range(ncl)], k, size))
+                    else:
+                        c = rng.randrange(ncl)
+                        items.append(("s%d:%d:%d" % (c, k, size), ["R%d" % c], k, size))
             if r == victim_round:
                 items.insert(rng.randrange(len(items) + 1), ("s%d:0:70000" % victim, ["R%d" % victim], 0, 70000))     # does not fit the 16-bit length prefix
             for text, recs, k, size in items:      # the harness numbers the items in script order
